@@ -594,7 +594,7 @@ def r41(ctx: Ctx) -> RuleReport:
     ft = ctx.repo.func('penman._format', 'format_triples')
     from ..resolve import local_callees, facts_ex
     strip = [n for f in local_callees(ctx, ft, depth=1) for n in walk_local(f.node) if isinstance(n, ast.Call) and isinstance(n.func, ast.Attribute)
-             and n.func.attr in ('lstrip', 'removeprefix') and n.args and try_fold(n.args[0]) == (True, ':')]
+             and n.func.attr in ('lstrip', 'removeprefix', 'strip') and n.args and try_fold(n.args[0]) == (True, ':')]
     raw_role = None
     if not strip:
         # positive evidence: the role of the unpacked triple is written into the text as it is
